@@ -268,6 +268,13 @@ func propLinearizable(c *Case) {
 		slotKeys[s] = [][]byte{baseKeys[order[s-1]]}
 	}
 
+	// the last two slots may be two ordinary keys whose hashes agree in half of their bits
+	if nslots >= 4 && c.Weighted("partial-hash-pair", 2, 1) == 1 {
+		pp := partialPairs[c.Pick("pair", len(partialPairs))]
+		slotKeys[nslots-2], slotKeys[nslots-1] = [][]byte{pp[0]}, [][]byte{pp[1]}
+		c.Class("slots-with-partially-equal-hashes")
+	}
+
 	slotOf := map[string]int{}
 	for s, ks := range slotKeys {
 		for _, k := range ks {
